@@ -304,8 +304,23 @@ def _points_strategy(st, n_nodes, h, w, force_missing=None):
     def inst(draw):
         pattern = draw(st.sampled_from(["full", "full", "random", "anchor_missing", "single", "none"]))
         pts = []
+        # one instance in five hugs the frame border: every node in the first / last row or column band (legal labels:
+        # 0 <= x <= w-1), where grid-extent filters and crop windows behave differently from the interior
+        hug = draw(st.integers(0, 3)) == 0
+        side = draw(st.sampled_from(["left", "right", "top", "bottom"])) if hug else None
+        on_line = hug and draw(st.booleans())  # every node exactly on the outermost row / column
         for n in range(n_nodes):
-            pts.append([draw(st.integers(2, w - 3)) + draw(st.sampled_from([0.0, 0.25, 0.5])), draw(st.integers(2, h - 3)) + draw(st.sampled_from([0.0, 0.5, 0.75]))])
+            x = draw(st.integers(2, w - 3)) + draw(st.sampled_from([0.0, 0.25, 0.5]))
+            y = draw(st.integers(2, h - 3)) + draw(st.sampled_from([0.0, 0.5, 0.75]))
+            if side == "left":
+                x = 0.0 if on_line else draw(st.sampled_from([0.0, 0.0, 0.25, 1.0]))
+            elif side == "right":
+                x = float(w - 1) - (0.0 if on_line else draw(st.sampled_from([0.0, 0.0, 0.5, 1.0, 2.0, 3.0])))
+            elif side == "top":
+                y = 0.0 if on_line else draw(st.sampled_from([0.0, 0.0, 0.25, 1.0]))
+            elif side == "bottom":
+                y = float(h - 1) - (0.0 if on_line else draw(st.sampled_from([0.0, 0.0, 0.5, 1.0, 2.0, 3.0])))
+            pts.append([x, y])
         full = [list(p) for p in pts]  # coordinates of every node before the NaN pattern is applied
         if pattern == "random":
             keep = draw(st.integers(0, n_nodes - 1))
